@@ -20,6 +20,8 @@ enum TaskKind {
     SubNext(u8),
     /// sub.next_now().await
     SubNextNow(u8),
+    /// the subscriber polled as a `Stream` (poll_next), not through next()
+    SubStream(u8),
 }
 
 #[derive(Clone, Copy, Debug, PartialEq, Eq, Hash)]
@@ -119,6 +121,7 @@ impl Harness for AGuardH {
             for s in 0..cfg.nsubs {
                 if !m.sub_busy[s as usize] {
                     out.push(ATok::Spawn(TaskKind::SubNext(s)));
+                    out.push(ATok::Spawn(TaskKind::SubStream(s)));
                     if !cfg.small {
                         out.push(ATok::Spawn(TaskKind::SubNextNow(s)));
                     }
@@ -147,7 +150,7 @@ impl Harness for AGuardH {
         // are cancelled. `run` treats polls of finished tasks as no-ops.
         match *t {
             ATok::Spawn(k) => {
-                if let TaskKind::SubNext(s) | TaskKind::SubNextNow(s) = k {
+                if let TaskKind::SubNext(s) | TaskKind::SubNextNow(s) | TaskKind::SubStream(s) = k {
                     m.sub_busy[s as usize] = true;
                 }
                 m.tasks.push((k, true, false));
@@ -268,6 +271,13 @@ impl AWorld {
                     TaskOut::SubNow(sub, r)
                 })
             }
+            TaskKind::SubStream(s) => {
+                let mut sub = self.subs[s as usize].take().expect("subscriber is free");
+                Box::pin(async move {
+                    let r = std::future::poll_fn(|cx| Pin::new(&mut sub).poll_next(cx)).await.map(|v| v.code());
+                    TaskOut::Sub(sub, r)
+                })
+            }
         };
         self.tasks.push(TaskR { kind, fut: Some(fut), gate, holding, flag: None, done: false });
     }
@@ -297,7 +307,7 @@ impl AWorld {
                 self.tasks[k].flag = Some(flag);
                 if !was_holding && (w_before > 0 || (r_before > 0 && matches!(kind, TaskKind::Set(_) | TaskKind::SetIfNotEq(_) | TaskKind::WGuard(_)))) {
                     st.mark("task_waits_for_the_lock");
-                    if matches!(kind, TaskKind::SubNext(_)) && w_before > 0 {
+                    if matches!(kind, TaskKind::SubNext(_) | TaskKind::SubStream(_)) && w_before > 0 {
                         st.mark("subscriber_polled_under_write_guard");
                     }
                 }
@@ -353,7 +363,7 @@ impl AWorld {
                             return Err(self.v("get-value", format!("task {k}: get returned {x}, value is {}", self.value)));
                         }
                     }
-                    (TaskKind::SubNext(s), TaskOut::Sub(sub, r)) => {
+                    (TaskKind::SubNext(s) | TaskKind::SubStream(s), TaskOut::Sub(sub, r)) => {
                         let s = s as usize;
                         if self.seen[s] == self.epoch {
                             return Err(self.v("next-ready-without-update", format!("task {k}: next() returned {r:?} although subscriber {s} had observed the latest update")));
@@ -425,7 +435,7 @@ impl AWorld {
                 continue;
             }
             let legit = match t.kind {
-                TaskKind::SubNext(s) => self.seen[s as usize] == self.epoch,
+                TaskKind::SubNext(s) | TaskKind::SubStream(s) => self.seen[s as usize] == self.epoch,
                 _ => false,
             };
             if !legit {
@@ -447,7 +457,7 @@ impl AWorld {
             self.step = i;
             match *t {
                 ATok::Spawn(kind) => {
-                    if let TaskKind::SubNext(s) | TaskKind::SubNextNow(s) = kind {
+                    if let TaskKind::SubNext(s) | TaskKind::SubNextNow(s) | TaskKind::SubStream(s) = kind {
                         if self.subs[s as usize].is_none() {
                             // its previous task is still pending: keep task
                             // indices aligned with the enumeration model
